@@ -638,6 +638,8 @@ def check_c12(args):
     v = Verdict("C12")
     n = 400 if tier == "thorough" else 45
     cases = layout_cases(seed * 31 + 7, n, order_query, None)
+    # primary keys are not enforced unique: key tables with duplicate keys (the scan is ordered by the key only)
+    cases += layout_cases(seed * 43 + 1, n // 3, order_query, True, dup_keys=True)
     flat = run_layout_cases(cases, "c12")
     validate_t1(flat, "c12")
     agree = oracle_selfcheck(flat)
